@@ -13,7 +13,12 @@ def verdict (args : List String) : Option String := do
     let (t', rest) ← parseTables rest
     if !rest.isEmpty then none
     match checkMinimized t t' acts g.inputs.size with
-    | .ok _ => some "ok"
+    | .ok _ =>
+      -- the decidable side conditions of the run-level theorem `C06_runs_equal`
+      if !tablesWf t then some "hypothesis-fails tablesWf(unminimized)"
+      else if !tablesWf t' then some "hypothesis-fails tablesWf(minimized)"
+      else if !sameRules t t' then some "hypothesis-fails sameRules"
+      else some "ok"
     | .error e =>
       -- classify: is the unminimized automaton already in the known shared-final-state class?
       let tag := match LRRef.phiWalk g t with
